@@ -1,7 +1,7 @@
 (* C19/Check.v — correspondence + property oracle for one harness case (executable only).
 
    Case layouts (first value = tag; see harness/cmd/c19/main.go):
-   1 SEARCH : kind base n (opt ts)*n curOK t | errclass seq ts trace
+   1 SEARCH : kind base n (opt ts)*n curOK tsec tnano | errclass seq ts trace
    2 PATH   : kind n | statePath dataPath
    3 DECODE : kind cur n fileseq ts | ok seq ts
    5 FAULT  : kind mode n cut len | outcome
@@ -21,7 +21,9 @@ Definition dir_of (base : Z) (stamps : list (option Z)) : Z -> option Z :=
 Definition state_eqb (a b : state) : bool := (fst a =? fst b) && (snd a =? snd b).
 
 Definition check_search : P (list Z) :=
-  kind <- pint ;; base <- pint ;; stamps <- plist (popt pint) ;; curok <- pbool ;; t <- pint ;;
+  kind <- pint ;; base <- pint ;; stamps <- plist (popt pint) ;; curok <- pbool ;;
+  tsec <- pint ;; tnano <- pint ;;
+  let t := tsec * 1000000000 + tnano in   (* the query time may lie outside int64 nanoseconds *)
   errclass <- pint ;; seq <- pint ;; ts <- pint ;; trace <- plist pint ;;
   match last stamps None with
   | None => pfail
